@@ -34,6 +34,10 @@ pub struct Case {
     /// worker holds the mutex (chaos lane)
     #[serde(default)]
     pub slow_src: Vec<(usize, u32)>,
+    /// (workers, items): a second, independent pipe that is consumed concurrently in another thread
+    /// (state that is accidentally shared between pipe instances only shows with two of them alive)
+    #[serde(default)]
+    pub second_pipe: Option<(u8, usize)>,
 }
 
 pub fn tag(x: usize) -> u64 {
@@ -156,6 +160,7 @@ impl Prop for C05 {
                 pause_every: 0,
                 pause_us: 0,
                 slow_src: vec![],
+                second_pipe: None,
             };
         }
         if lane == "stall" {
@@ -181,6 +186,7 @@ impl Prop for C05 {
                 pause_every: 0,
                 pause_us: 0,
                 slow_src: if in_upstream { vec![(at, stall_us)] } else { vec![] },
+                second_pipe: None,
             };
         }
         if lane == "sched" {
@@ -216,6 +222,11 @@ impl Prop for C05 {
                 pause_every: 0,
                 pause_us: 0,
                 slow_src: vec![],
+                second_pipe: if rng.random_range(0..5) == 0 {
+                    Some((rng.random_range(1..=3u8), rng.random_range(1..=12usize)))
+                } else {
+                    None
+                },
             }
         } else {
             let threads = *[0u8, 1, 2, 2, 3, 4, 4, 8, 16, 64]
@@ -264,6 +275,14 @@ impl Prop for C05 {
                 } else {
                     vec![]
                 },
+                second_pipe: if rng.random_range(0..3) == 0 {
+                    Some((
+                        *[1u8, 2, 3, 4, 8].get(rng.random_range(0..5)).unwrap(),
+                        rng.random_range(1..=400usize),
+                    ))
+                } else {
+                    None
+                },
             }
         }
     }
@@ -305,6 +324,34 @@ impl Prop for C05 {
             tag(x)
         });
         let pipe = src.pipe(f, c.threads);
+        // second pipe: its own upstream, workers and consumer thread; not known to the controller
+        let second = c.second_pipe.map(|(w2, n2)| {
+            std::thread::spawn(move || -> Result<(), String> {
+                let calls: Arc<Vec<AtomicU32>> =
+                    Arc::new((0..n2).map(|_| AtomicU32::new(0)).collect());
+                let calls2 = calls.clone();
+                let f2: text_utils::data::Pipeline<usize, u64> = Arc::new(move |x: usize| {
+                    if let Some(cn) = calls2.get(x) {
+                        cn.fetch_add(1, Ordering::SeqCst);
+                    }
+                    tag(x) ^ 0x5555
+                });
+                let out: Vec<u64> = (0..n2).pipe(f2, w2).collect();
+                let expect: Vec<u64> = (0..n2).map(|x| tag(x) ^ 0x5555).collect();
+                if out != expect {
+                    return Err(format!(
+                        "second pipe (W={w2}, n={n2}) yielded {} items, first 8 {:?}, expected {:?}",
+                        out.len(),
+                        &out[..out.len().min(8)],
+                        &expect[..expect.len().min(8)]
+                    ));
+                }
+                if calls.iter().any(|c| c.load(Ordering::SeqCst) != 1) {
+                    return Err("second pipe: an item was not processed exactly once".to_string());
+                }
+                Ok(())
+            })
+        });
         let done = Arc::new(AtomicBool::new(false));
         let result: Arc<Mutex<Option<RunOut>>> = Arc::new(Mutex::new(None));
         let (s2, done2, result2) = (s.clone(), done.clone(), result.clone());
@@ -477,6 +524,15 @@ impl Prop for C05 {
         }
         if !dropped.load(Ordering::SeqCst) {
             obs.inconclusive("upstream iterator not dropped 10 s after the end of the iteration");
+        }
+        if let Some(h) = second {
+            // (joined only on the non-deadlock path; a stuck second pipe would stall here and is
+            // then reported by the lane's wall-clock watchdog as inconclusive)
+            match h.join() {
+                Ok(Ok(())) => obs.tag("second-pipe-concurrently"),
+                Ok(Err(e)) => obs.fail("two-pipes/second-pipe-wrong", e),
+                Err(_) => obs.fail("two-pipes/second-pipe-panicked", "consumer thread of the second pipe panicked"),
+            }
         }
         obs.tag_if(c.lane == "stall", "long-stall");
         let nt = if c.lane == "stall" {
